@@ -56,4 +56,9 @@ theorem pktUnmarshal_wire (p : Packet) (hwf : Pred.C01.wfP p = true) (r : Packet
     simp only [hpad, Bool.false_eq_true, if_false, hz, List.append_nil]
     rw [drop_left' _ _ _ hW.symm, hps']
 
+/-- elements held while `Extension` is false are invisible: no accessor shows them and the
+    encoder never looks at them -/
+def dropHidden (p : Packet) : Packet :=
+  if p.header.extension then p else { p with header := { p.header with exts := [] } }
+
 end Rtp.Proofs.PacketRt
